@@ -434,16 +434,19 @@ C19_run(H) ==
     /\ H.out.ok =>
          /\ WireRuns(H) # {}
          /\ \A w \in WireRuns(H) :
-              LET s == SentOfRun(H, w) IN
-              /\ {s[j].ttl : j \in DOMAIN s} = ex.min..ex.max
-              /\ Len(s) = ex.max - ex.min + 1
+              LET s == SentOfRun(H, w)
+                  e2e == IsE2E(H, w)                                      \* an end-to-end probe: one packet at the last TTL, always SYN for TCP
+                  kind == IF e2e /\ ex.kind = "sack" THEN "syn" ELSE ex.kind
+              IN
+              /\ {s[j].ttl : j \in DOMAIN s} = (IF e2e THEN {ex.max} ELSE ex.min..ex.max)
+              /\ Len(s) = (IF e2e THEN 1 ELSE ex.max - ex.min + 1)
               /\ \A j \in DOMAIN s :
                     /\ s[j].p.dst = ex.addr
-                    /\ (ex.kind # "echo_req" => s[j].p.dport = ex.port)
-                    /\ CASE ex.kind = "echo_req" -> s[j].p.kind = "echo_req"
-                         [] ex.kind = "udp" -> s[j].p.kind = "udp"
-                         [] ex.kind = "syn" -> s[j].p.kind = "tcp" /\ s[j].p.flags = SYN
-                         [] ex.kind = "sack" -> s[j].p.kind = "tcp" /\ HasFlag(s[j].p, ACK) /\ ~HasFlag(s[j].p, SYN)
+                    /\ (kind # "echo_req" => s[j].p.dport = ex.port)
+                    /\ CASE kind = "echo_req" -> s[j].p.kind = "echo_req"
+                         [] kind = "udp" -> s[j].p.kind = "udp"
+                         [] kind = "syn" -> s[j].p.kind = "tcp" /\ s[j].p.flags = SYN
+                         [] kind = "sack" -> s[j].p.kind = "tcp" /\ HasFlag(s[j].p, ACK) /\ ~HasFlag(s[j].p, SYN)
                          [] OTHER -> FALSE
 
 \* C17 over the wire: hop k of every reported run is router k of the scripted path (expect17.routers), emptied iff it is
